@@ -384,7 +384,9 @@ func TestC06(t *testing.T) {
 
 	// fixed inputs covering the classes of the quantifier
 	if sh, _ := shard(); sh == 0 {
-		for _, src := range []string{"a b", "if a; then b; fi", "echo $(a; b) c", "cat <<E\nx\nE\n", "a <<A <<B\n1\nA\n2\nB\n", "x `a | b` $((1 + 2))", "a | | b c", "a | | $(", "cat <<E ; ; \n", "a | | 'q", ") 'x", "a $(b", "{ a; } }", "for i in a; do b; done", "case x in a) b;; esac", "a # c\n", "a && \nb\n"} {
+		for _, src := range []string{"a b", "if a; then b; fi", "echo $(a; b) c", "cat <<E\nx\nE\n", "a <<A <<B\n1\nA\n2\nB\n", "x `a | b` $((1 + 2))", "a | | b c", "a | | $(", "cat <<E ; ; \n", "a | | 'q", ") 'x", "a $(b", "{ a; } }", "for i in a; do b; done", "case x in a) b;; esac", "a # c\n", "a && \nb\n",
+			// an error inside a substitution, with more input behind it
+			"echo $(a ; ; -b c d e f) g", "x `a | | b c d` e f", "echo $(a ; ; b c d 'x", "echo \"$(a && && b c)\" d e", "echo $(a $(b ; ; c d) e) f g", "a $((1 + $(b ; ; c d e) )) f"} {
 			explore(t, c06Case{Kind: "parse", Src: src}, nil, false)
 		}
 		for _, e := range c06EvalExprs {
